@@ -84,17 +84,22 @@ type tr struct {
 	commaOk     bool            // translating the right-hand side of `v, ok := m[k]`
 	closure     *closureCtx     // translating the body of a function literal
 	nclos       int
-	mapVal      *mapValBind            // value variable of a map range being rewritten to a key-list range
-	depth       int                    // nesting of on-demand helper translation
-	recvName    string                 // the receiver's name in the source (call-table keys are written with `k`)
-	inWalk      bool                   // translating the body of a Walk closure (it does not touch the store)
-	indexAlias  map[string]string      // "xs[i]" -> the element variable of the enclosing index loop over xs
-	lenOf       map[string]ast.Expr    // Go variable bound by `n := len(xs)` -> xs
-	mapRangeIdx map[*ast.BlockStmt]int // map-range loops (by body) in order of first translation = source order
-	lambda      string                 // the translated function as a lambda term (for helpers inlined at their call sites)
-	mutated     map[string]bool        // Lean names of PARAMETERS the function writes through
-	paramLeanOf map[string]string      // Go parameter name -> Lean name it is bound to (aliases share one)
-	extraFree   []string               // identifiers of the ranged map expression (free in the rewritten loop)
+	mapVal      *mapValBind               // value variable of a map range being rewritten to a key-list range
+	depth       int                       // nesting of on-demand helper translation
+	recvName    string                    // the receiver's name in the source (call-table keys are written with `k`)
+	inWalk      bool                      // translating the body of a Walk closure (it does not touch the store)
+	indexAlias  map[string]string         // "xs[i]" -> the element variable of the enclosing index loop over xs
+	lenOf       map[string]ast.Expr       // Go variable bound by `n := len(xs)` -> xs
+	mapRangeIdx map[*ast.BlockStmt]int    // map-range loops (by body) in order of first translation = source order
+	touched     map[string][]touch        // Go variables of the function that are re-assigned or written through: where
+	loopPaths   map[ast.Node][]branchStep // the branch path of every loop statement of the function
+	loopNode    ast.Node                  // the loop statement being translated, as in the source
+	pureDefs    map[string]*pureDef       // Lean name -> the immutable pure local it is (see rangeLoop)
+	npure       int
+	lambda      string            // the translated function as a lambda term (for helpers inlined at their call sites)
+	mutated     map[string]bool   // Lean names of PARAMETERS the function writes through
+	paramLeanOf map[string]string // Go parameter name -> Lean name it is bound to (aliases share one)
+	extraFree   []string          // identifiers of the ranged map expression (free in the rewritten loop)
 }
 
 type closureCtx struct {
@@ -1281,8 +1286,10 @@ func (t *tr) stmts(list []ast.Stmt, en env, k cont) string {
 		}
 		return t.failf("branch %s", s.Tok)
 	case *ast.RangeStmt:
+		t.loopNode = s
 		return t.rangeLoop(s, en, next)
 	case *ast.ForStmt:
+		t.loopNode = s
 		// `for i := 0; i < len(xs); i++ { … xs[i] … }` (or `i < n` with `n := len(xs)`) is the
 		// index loop `for i := range xs`
 		if rs := t.indexFor(s); rs != nil {
@@ -1554,6 +1561,9 @@ func (t *tr) assign0(s *ast.AssignStmt, en env) (string, env) {
 				continue
 			}
 			out += fmt.Sprintf("let %s : %s := %s\n", n, leanType(ty), v.L)
+			if len(s.Lhs) == 1 {
+				t.notePureDef(s, en, npre, V{v.L, ty})
+			}
 		case *ast.SelectorExpr:
 			// x.F = e, x.F.G = e  (x a local struct value)
 			root := l.X
@@ -1752,6 +1762,10 @@ func (t *tr) rangeLoop(s *ast.RangeStmt, en env, next cont) string {
 	if s.Tok != token.DEFINE && s.Tok != token.ILLEGAL {
 		return t.failf("range with assignment")
 	}
+	var loopNode ast.Node = s
+	if t.loopNode != nil {
+		loopNode = t.loopNode // the statement as it is in the source (s may be its desugared form)
+	}
 	if keys, ok := t.u.MapKeys[t.w.render(s.X)]; ok {
 		return t.mapRange(s, keys, en, next)
 	}
@@ -1846,8 +1860,28 @@ func (t *tr) rangeLoop(s *ast.RangeStmt, en env, next cont) string {
 			en.m[n] = evar{ln, v.t, v.depth}
 		}
 	}
-	// free variables of the body that live in the environment (and are not state)
-	fi := freeIdents(s.Body)
+	// free variables of the body that live in the environment (and are not state): not the
+	// loop's own variables (they shadow), not what occurs only inside `xs[i]` of an index loop
+	fi := map[string]bool{}
+	{
+		own := map[string]bool{identName(s.Key): true, identName(s.Value): true}
+		ast.Inspect(s.Body, func(n ast.Node) bool {
+			switch e := n.(type) {
+			case *ast.IndexExpr:
+				if _, ok := t.indexAlias[t.w.render(e)]; ok && identName(e.Index) == identName(s.Key) && identName(s.Key) != "" {
+					return false
+				}
+				if a, ok := t.indexAlias[t.w.render(e)]; ok && a == identName(s.Value) {
+					return false
+				}
+			case *ast.Ident:
+				if !own[e.Name] {
+					fi[e.Name] = true
+				}
+			}
+			return true
+		})
+	}
 	if t.u.EffectsOn {
 		fi["effs__"] = true
 	}
@@ -1893,6 +1927,49 @@ func (t *tr) rangeLoop(s *ast.RangeStmt, en env, next cont) string {
 		if v, ok := en.m[n]; ok && !isState[n] && v.t != "Keeper" && v.lean != "false" && v.lean != "true" {
 			frees = append(frees, n)
 		}
+	}
+	// immutable pure locals are not passed to the loop: their bindings are repeated inside it
+	var rebind []*pureDef
+	{
+		seen := map[string]bool{}
+		inFrees := map[string]bool{}
+		var keep []string
+		var visit func(n string)
+		visit = func(n string) {
+			if seen[n] {
+				return
+			}
+			seen[n] = true
+			v, ok := en.m[n]
+			if !ok || isState[n] || v.t == "Keeper" || v.lean == "false" || v.lean == "true" {
+				return
+			}
+			if d, ok := t.pureDefs[v.lean]; ok && d.goName == n {
+				// x and everything it reads must keep their values until the loop is over
+				okDeps := t.untouchedUntil(n, loopNode)
+				for _, x := range d.deps {
+					if isState[x] || !t.untouchedUntil(x, loopNode) {
+						okDeps = false
+					}
+				}
+				if okDeps {
+					for _, x := range d.deps {
+						visit(x)
+					}
+					rebind = append(rebind, d)
+					return
+				}
+			}
+			if !inFrees[n] {
+				inFrees[n] = true
+				keep = append(keep, n)
+			}
+		}
+		for _, n := range frees {
+			visit(n)
+		}
+		frees = keep
+		sort.Slice(rebind, func(i, j int) bool { return rebind[i].seq < rebind[j].seq })
 	}
 	sort.Strings(frees)
 
@@ -1977,7 +2054,11 @@ func (t *tr) rangeLoop(s *ast.RangeStmt, en env, next cont) string {
 		done:  func(e2 env) string { return "Loop.done " + atom(stateTuple(e2)) },
 		outer: outer,
 	}
-	body := mvPre + t.stmts(s.Body.List, ben, recCall)
+	rbPre := ""
+	for _, d := range rebind {
+		rbPre += fmt.Sprintf("let %s : %s := %s\n", d.lean, leanType(d.t), d.def)
+	}
+	body := rbPre + mvPre + t.stmts(s.Body.List, ben, recCall)
 	t.loop = outer
 
 	retT := leanTypeAtom(t.fullRet())
@@ -2408,6 +2489,9 @@ func (t *tr) translate(fd funcDecl) (out string) {
 	fn := fd.decl
 	en := env{m: map[string]evar{}}
 	t.used = map[string]bool{}
+	if fn.Body != nil {
+		t.touched, t.loopPaths = touchedVars(fn.Body)
+	}
 	var params []string
 	bind := func(goName string, p gparam) {
 		if p.T == "" {
@@ -2821,4 +2905,299 @@ func (t *tr) indexFor(s *ast.ForStmt) *ast.RangeStmt {
 		return nil
 	}
 	return &ast.RangeStmt{Key: &ast.Ident{Name: i}, Tok: token.DEFINE, X: xs, Body: s.Body}
+}
+
+// pureDef: a local `x := e` that is never assigned again or written through, whose right-hand
+// side has no effect and reads only parameters, oracles and other such locals.  A loop that uses
+// x does not receive it as a parameter: the binding is repeated inside the loop's auxiliary
+// definition, so HOISTING a loop-invariant computation out of a loop (or sinking it back in) does
+// not change the signature the tie lemmas are stated for.
+type pureDef struct {
+	goName string
+	lean   string
+	t      LT
+	def    string
+	deps   []string // Go names
+	seq    int
+}
+
+// touchedVars: every variable of the function that is assigned other than by its one `:=`,
+// incremented, written through (field / index / mutator call), address-taken, or that shares an
+// object with such a variable through a type assertion
+// a touch: where a variable is assigned again / written through, and on which branches of the
+// enclosing if / switch statements that place lies
+type touch struct {
+	pos  token.Pos
+	path []branchStep
+	many bool // defined more than once: never a single-assignment local
+}
+
+type branchStep struct {
+	stmt   token.Pos // position of the if / switch statement
+	branch int       // which of its branches
+	term   bool      // that branch ends in a `return`: control never leaves it into what follows
+}
+
+func endsInReturn(b *ast.BlockStmt) bool {
+	if b == nil || len(b.List) == 0 {
+		return false
+	}
+	_, ok := b.List[len(b.List)-1].(*ast.ReturnStmt)
+	return ok
+}
+
+// exclusive: two places that lie on DIFFERENT branches of one if / switch are never both executed
+// in one run through the function body (no loops are considered: see untouchedUntil)
+func exclusive(a, b []branchStep) bool {
+	for _, x := range a {
+		inSame := false
+		for _, y := range b {
+			if x.stmt == y.stmt && x.branch != y.branch {
+				return true
+			}
+			if x.stmt == y.stmt && x.branch == y.branch {
+				inSame = true
+			}
+		}
+		if x.term && !inSame {
+			return true // a is inside a branch that returns and b is not in that branch
+		}
+	}
+	return false
+}
+
+// touchedVars: every place where a variable of the function is assigned other than by its one
+// `:=`, incremented, written through (field / index / mutator call), address-taken — also for the
+// variables that share an object with it through a type assertion; and the branch path of every
+// loop statement
+func touchedVars(body *ast.BlockStmt) (map[string][]touch, map[ast.Node][]branchStep) {
+	out := map[string][]touch{}
+	loops := map[ast.Node][]branchStep{}
+	defs := map[string]int{}
+	peers := map[string][]string{}
+	base := func(e ast.Expr) string {
+		for {
+			switch x := e.(type) {
+			case *ast.SelectorExpr:
+				e = x.X
+			case *ast.IndexExpr:
+				e = x.X
+			case *ast.StarExpr:
+				e = x.X
+			case *ast.ParenExpr:
+				e = x.X
+			case *ast.Ident:
+				return x.Name
+			default:
+				return ""
+			}
+		}
+	}
+	var walk func(n ast.Node, path []branchStep)
+	hit := func(n string, p token.Pos, path []branchStep) {
+		out[n] = append(out[n], touch{pos: p, path: append([]branchStep{}, path...)})
+	}
+	walk = func(n ast.Node, path []branchStep) {
+		if n == nil {
+			return
+		}
+		switch s := n.(type) {
+		case *ast.IfStmt:
+			if s.Init != nil {
+				walk(s.Init, path)
+			}
+			walk(s.Cond, path)
+			walk(s.Body, append(append([]branchStep{}, path...), branchStep{s.Pos(), 0, endsInReturn(s.Body)}))
+			if s.Else != nil {
+				eb, _ := s.Else.(*ast.BlockStmt)
+				walk(s.Else, append(append([]branchStep{}, path...), branchStep{s.Pos(), 1, endsInReturn(eb)}))
+			}
+			return
+		case *ast.SwitchStmt:
+			if s.Init != nil {
+				walk(s.Init, path)
+			}
+			if s.Tag != nil {
+				walk(s.Tag, path)
+			}
+			for i, c := range s.Body.List {
+				walk(c, append(append([]branchStep{}, path...), branchStep{s.Pos(), i, false}))
+			}
+			return
+		case *ast.RangeStmt:
+			loops[s] = append([]branchStep{}, path...)
+			for _, e := range []ast.Expr{s.Key, s.Value} {
+				if id, ok := e.(*ast.Ident); ok {
+					defs[id.Name] += 2 // loop variables change every iteration
+				}
+			}
+		case *ast.ForStmt:
+			loops[s] = append([]branchStep{}, path...)
+		case *ast.AssignStmt:
+			for i, l := range s.Lhs {
+				if id, ok := l.(*ast.Ident); ok && s.Tok == token.DEFINE {
+					defs[id.Name]++
+					if len(s.Rhs) == len(s.Lhs) || len(s.Rhs) == 1 {
+						r := s.Rhs[0]
+						if len(s.Rhs) == len(s.Lhs) {
+							r = s.Rhs[i]
+						}
+						if ta, ok := r.(*ast.TypeAssertExpr); ok && i == 0 {
+							if y := base(ta.X); y != "" {
+								peers[id.Name] = append(peers[id.Name], y)
+								peers[y] = append(peers[y], id.Name)
+							}
+						}
+					}
+					continue
+				}
+				if b := base(l); b != "" {
+					hit(b, s.Pos(), path)
+				}
+			}
+		case *ast.IncDecStmt:
+			if b := base(s.X); b != "" {
+				hit(b, s.Pos(), path)
+			}
+		case *ast.UnaryExpr:
+			if s.Op == token.AND {
+				if b := base(s.X); b != "" {
+					hit(b, s.Pos(), path)
+				}
+			}
+		case *ast.CallExpr:
+			if sel, ok := s.Fun.(*ast.SelectorExpr); ok && mutatorNames[sel.Sel.Name] {
+				if b := base(sel.X); b != "" {
+					hit(b, s.Pos(), path)
+				}
+			}
+		}
+		// children, in source order
+		var kids []ast.Node
+		ast.Inspect(n, func(m ast.Node) bool {
+			if m == nil || m == n {
+				return m == n
+			}
+			kids = append(kids, m)
+			return false
+		})
+		for _, k := range kids {
+			walk(k, path)
+		}
+	}
+	walk(body, nil)
+	for n, c := range defs {
+		if c > 1 {
+			out[n] = append(out[n], touch{many: true})
+		}
+	}
+	for changed := true; changed; {
+		changed = false
+		for n, ts := range out {
+			for _, p := range peers[n] {
+				if len(out[p]) < len(ts) { // the peer is touched wherever n is
+					out[p] = append([]touch{}, ts...)
+					changed = true
+				}
+			}
+		}
+	}
+	return out, loops
+}
+
+// untouchedUntil: the variable keeps its value from its definition until the loop `l` is over —
+// every place that changes it lies on another branch than the loop, or after the loop (and we are
+// not inside an enclosing loop, whose later statements run before the next iteration)
+func (t *tr) untouchedUntil(n string, l ast.Node) bool {
+	lp, known := t.loopPaths[l]
+	for _, tc := range t.touched[n] {
+		if tc.many {
+			return false
+		}
+		if known && exclusive(tc.path, lp) && t.loop == nil {
+			continue
+		}
+		if tc.pos > l.End() && t.loop == nil {
+			continue
+		}
+		return false
+	}
+	return true
+}
+
+// notePureDef records `x := e` as an immutable pure local when it qualifies.
+func (t *tr) notePureDef(s *ast.AssignStmt, en env, preBefore int, v V) {
+	if s.Tok != token.DEFINE || len(s.Lhs) != 1 || len(s.Rhs) != 1 || len(t.pre) != preBefore || t.loop != nil || t.closure != nil {
+		return
+	}
+	x := identName(s.Lhs[0])
+	if x == "" || x == "_" || t.touched == nil {
+		return
+	}
+	for _, tc := range t.touched[x] {
+		if tc.many {
+			return
+		}
+	}
+	ev, ok := en.m[x]
+	if !ok || ev.lean == "false" || ev.lean == "true" || ev.t != v.T || strings.Contains(v.L, "\n") {
+		return
+	}
+	var deps []string
+	for d := range freeIdents(s.Rhs[0]) {
+		dv, ok := en.m[d]
+		if !ok || d == x {
+			continue
+		}
+		if dv.t == "Keeper" || dv.lean == "false" || dv.lean == "true" {
+			continue
+		}
+		if dv.t == "Poison" {
+			return
+		}
+		// d is a parameter or a local that is never assigned again or written through (checked
+		// above): its value at the loop is its value here
+		deps = append(deps, d)
+	}
+	// oracle parameters reached through the call table
+	bad := false
+	ast.Inspect(s.Rhs[0], func(n ast.Node) bool {
+		if ce, ok := n.(*ast.CallExpr); ok {
+			if se, ok := ce.Fun.(*ast.SelectorExpr); ok && se.Sel.Name == "BlockTime" {
+				deps = append(deps, "now__")
+			}
+			if cs, ok := t.u.Calls[t.calleeKey(ce.Fun)]; ok {
+				if cs.Effect != "" || cs.Store != "" || cs.Walk != "" {
+					bad = true
+				}
+				for _, p := range t.u.Params {
+					if p.Oracle && strings.Contains(cs.Value.L, p.Go) {
+						deps = append(deps, p.Go)
+					}
+				}
+			}
+			var key string
+			switch f := ce.Fun.(type) {
+			case *ast.SelectorExpr:
+				key = f.Sel.Name
+			case *ast.Ident:
+				key = f.Name
+			}
+			for k := range t.reg {
+				if key != "" && strings.HasSuffix(k, "."+key) {
+					bad = true // a call of another unit: keep it where it is
+				}
+			}
+		}
+		return true
+	})
+	if bad {
+		return
+	}
+	sort.Strings(deps)
+	if t.pureDefs == nil {
+		t.pureDefs = map[string]*pureDef{}
+	}
+	t.npure++
+	t.pureDefs[ev.lean] = &pureDef{goName: x, lean: ev.lean, t: ev.t, def: v.L, deps: deps, seq: t.npure}
 }
